@@ -509,7 +509,8 @@ def search_impl(ctx, rsp, deep):
     rng = ctx.rng
     n_eval = 0
     pool = payload_pool(rng, 400 if deep else 120)
-    budget = {'frame_roundtrip': 3, 'bad_checksum': 3, 'nak_retransmit': 2, 'retry_budget': 2}
+    budget = {'frame_roundtrip': 3, 'bad_checksum': 3, 'nak_retransmit': 2, 'retry_budget': 2,
+              'witness_quote_terminator': 1, 'witness_unescape': 1, 'witness_nak_dropped': 1, 'witness_last_retry': 1}
 
     def report(fn, rec):
         if budget[fn] <= 0:
@@ -518,6 +519,30 @@ def search_impl(ctx, rsp, deep):
         rec = dict(rec, fn=fn, how_to_replay='cd /verif && ./check C35 --replay <this file>')
         ctx.violation(rec)
 
+    # 0. the witnesses of the *_refuted theorems of Props/C35.v, re-executed on the implementation
+    for fn, p in (('witness_quote_terminator', [97, 39]), ('witness_unescape', [97, 125, 98, 36])):
+        pk = impl_pack(rsp, p)
+        n_eval += 1
+        wire = pk.v if isinstance(pk, OkV) else []
+        d, out, acks, exc = impl_receive(rsp, [wire])
+        if d != [p] or out != [0x2b] or exc:
+            report(fn, {'args': [p], 'chunks': [wire], 'theorem': 'c35_frame_roundtrip_refuted' if fn.endswith('terminator')
+                        else 'c35_unescape_refuted',
+                        'expected': {'delivered': [p], 'replies': [0x2b]},
+                        'actual': {'delivered': d, 'replies': out, 'exception': exc}})
+    n_eval += 1
+    got = impl_acks_run(rsp, 1, [45, 43])
+    if got != [0, 2]:
+        report('witness_last_retry', {'args': [1, [45, 43]], 'theorem': 'c35_retry_budget_refuted',
+                                      'what': 'sendpkt("s", retries=1) with _ack_queue items "-", "+"',
+                                      'expected': {'outcome': 'acked', 'transmissions': 2},
+                                      'actual': {'outcome_code': got[0], 'transmissions': got[1]}})
+    n_eval += 1
+    outc, sent, _ = impl_send_with_replies(rsp, s2l('s'), 10, [[0x2d], [0x2b]])
+    if (outc, sent) != ('acked', 2):
+        report('witness_nak_dropped', {'args': [s2l('s'), 10, [[0x2d], [0x2b]]], 'theorem': 'c35_nak_retransmits_refuted',
+                                       'expected': {'outcome': 'acked', 'transmissions': 2},
+                                       'actual': {'outcome': outc, 'transmissions': sent}})
     # 1. framing: frame made by the implementation, received by the implementation, any chunking
     for p in pool:
         pk = impl_pack(rsp, p)
@@ -556,7 +581,7 @@ def search_impl(ctx, rsp, deep):
         n_eval += 1
         d, out, acks, exc = impl_receive(rsp, chunkings(rng, stream, 1)[-1])
         if d != d_ref or out != r_ref or exc:
-            fn = 'bad_checksum' if (d == d_ref or len(r_ref) != len(d_ref)) and 0x2d in r_ref else 'frame_roundtrip'
+            fn = 'bad_checksum' if out != r_ref and (0x2d in r_ref or 0x2d in out) else 'frame_roundtrip'
             report(fn, {'args': [stream], 'expected': {'delivered': d_ref, 'replies': r_ref},
                         'actual': {'delivered': d, 'replies': out, 'exception': exc}})
         elif acks != a_ref:
@@ -581,6 +606,22 @@ def search_impl(ctx, rsp, deep):
                 report('retry_budget', dict(rec, expected='acked: only %d NAKs with retries=%d' % (k, retries)))
             elif outc != 'acked' and sent == k + 1:
                 report('retry_budget', dict(rec, expected='the last transmission was answered "+": must not fail'))
+    # 4. the same with the acknowledgements put straight into _ack_queue (reaches sendpkt even when the decoder
+    #    does not pass a "-" on)
+    for retries in ([0, 1, 2, 3, 5, 10] if deep else [1, 2, 10]):
+        for k in range(0, retries + 3):
+            n_eval += 1
+            code, sent = impl_acks_run(rsp, retries, [45] * k + [43])
+            rec = {'args': [retries, [45] * k + [43]], 'what': 'sendpkt("s", retries) with these _ack_queue items',
+                   'actual': {'outcome_code': code, 'transmissions': sent}}
+            if sent > retries + 1:
+                report('retry_budget', dict(rec, expected='at most 1 + retries transmissions'))
+            elif code == 0 and sent != k + 1:
+                report('retry_budget', dict(rec, expected='acked after exactly %d transmissions' % (k + 1)))
+            elif code != 0 and k < retries:
+                report('retry_budget', dict(rec, expected='acked: only %d NAKs with retries=%d' % (k, retries)))
+            elif code != 0 and sent == k + 1:
+                report('retry_budget', dict(rec, expected='the last transmission was answered "+": must not fail'))
     ctx.cov['stages']['oracle_search'] = n_eval
     ctx.cov['evaluations'] += n_eval
     return n_eval
@@ -596,7 +637,10 @@ def replay(rec):
     rsp = load_impl()
     fn = rec.get('fn')
     print('replaying %s on %s' % (fn, os.path.abspath(rsp.__file__)))
-    if fn in ('frame_roundtrip', 'bad_checksum') or (fn == 'nak_retransmit' and len(rec['args']) == 1):
+    if len(rec['args']) == 2:
+        code, sent = impl_acks_run(rsp, rec['args'][0], rec['args'][1])
+        actual = {'outcome_code': code, 'transmissions': sent}
+    elif len(rec['args']) == 1:
         if 'chunks' in rec:
             chunks = rec['chunks']
         elif fn == 'frame_roundtrip' and isinstance(rec['expected'], dict) and 'acks' in rec['expected']:
